@@ -300,6 +300,66 @@ fn std_part(ctx: &Ctx, thorough: bool) {
             }
         }
     }
+    // file offsets beyond 2^31 and 2^32 in a sparse file: the request that reaches the kernel
+    // carries the whole 64-bit offset, the region shows the bytes at that offset, and what the
+    // kernel itself accepts for these arguments the library accepts too
+    {
+        let f = tempfile().unwrap();
+        let g31 = 1u64 << 31;
+        let g32 = 1u64 << 32;
+        let flen = (1u64 << 33) + g32 + g31 + 3 * 4096;
+        if f.set_len(flen).is_ok() {
+            let offs = [g31 - 4096, g31, g31 + 4096, g32 - 4096, g32, g32 + 4096, g32 + g31, (1u64 << 33) + 4096, (1u64 << 33) + g32 + g31, flen - 4096, flen, flen + 4096];
+            for &off in &offs {
+                for size in [4096usize, 4097, 3 * 4096] {
+                    for api in 0..3usize {
+                        ctx.case(true);
+                        let end = off + size as u64;
+                        let must_fail = end > flen;
+                        let fo = FileOffset::new(f.try_clone().unwrap(), off);
+                        let (prot, flags) = (libc::PROT_READ | libc::PROT_WRITE, libc::MAP_NORESERVE | libc::MAP_SHARED);
+                        let name = ["MmapRegion::from_file", "MmapRegion::build(file)", "MmapRegionBuilder"][api];
+                        let rp = || json!({"api": name, "file_len": flen, "offset": off, "size": size});
+                        let (res, log) = record_maps(|| match api {
+                            0 => MmapRegion::<()>::from_file(fo, size),
+                            1 => MmapRegion::<()>::build(Some(fo), size, prot, flags),
+                            _ => vm_memory::mmap::MmapRegionBuilder::<()>::new(size).with_file_offset(fo).with_mmap_prot(prot).with_mmap_flags(flags).build(),
+                        });
+                        if !must_fail {
+                            match &res {
+                                Err(e) => {
+                                    // does the kernel refuse the same request?
+                                    let p = unsafe { libc::syscall(libc::SYS_mmap, 0usize, size, prot as libc::c_long, flags as libc::c_long, f.as_raw_fd() as libc::c_long, off as libc::c_long) };
+                                    if p as isize > 0 || (p as isize) < -4096 {
+                                        unsafe { libc::syscall(libc::SYS_munmap, p, size) };
+                                        fail(ctx, &format!("C15/std/{}/valid-request-refused", name), format!("offset {:#x} size {} of a file of {:#x} bytes: {:?} although the kernel maps exactly this request", off, size, flen, e), rp());
+                                    }
+                                }
+                                Ok(r) => {
+                                    // byte 0 and the last byte of the region are the file's bytes at off and off+size-1
+                                    for i in [0usize, size - 1] {
+                                        let v = 0x80 | ((off >> 12) as u8 & 0x3f) | (i as u8 & 1);
+                                        f.write_all_at(&[v], off + i as u64).unwrap();
+                                        let seen = unsafe { std::ptr::read_volatile(r.as_ptr().add(i)) };
+                                        unsafe { std::ptr::write_volatile(r.as_ptr().add(i), !v) };
+                                        let mut b = [0u8; 1];
+                                        f.read_exact_at(&mut b, off + i as u64).unwrap();
+                                        if seen != v || b[0] != !v {
+                                            fail(ctx, "C15/std/shared-file-coherence", format!("file offset {:#x} size {} byte {}: the region shows {:#x} where the file holds {:#x}; the file shows {:#x} after the region stored {:#x}", off, size, i, seen, v, b[0], !v), rp());
+                                            break;
+                                        }
+                                    }
+                                }
+                            }
+                        }
+                        judge_std(ctx, name, res, &log, must_fail, size, prot, flags, Some((f.as_raw_fd(), off)), &rp);
+                    }
+                }
+            }
+        } else {
+            ctx.machinery("cannot create a sparse file of 14 GiB for the large-offset sweep");
+        }
+    }
     // guest base + size beyond the address space
     for size in [1usize, 4096] {
         for d in -2i64..=2 {
@@ -706,7 +766,7 @@ fn file_histories(ctx: &Ctx) {
 
 pub fn run(tier: Tier, replay: Option<String>) -> i32 {
     let ctx = crate::new_ctx("C15", tier, "fault_enumeration", &replay);
-    ctx.set_rule("Unix build: file lengths {0,1,4095,4096,4097,8192,12288} x offsets {0,1,4096,len-1,len,len+1,2^64-4096,2^64-1} x sizes {0,1,4096,rest-1,rest,rest+1,isize::MAX,usize::MAX} x all 32 subsets of {PRIVATE,SHARED,ANONYMOUS,NORESERVE,FIXED} (x 3 protections in the thorough tier) through MmapRegion::build / from_file / GuestRegionMmap::from_range and the builder with the hugetlbfs hint {unset, false, true}, descriptors opened read-only and write-only x 3 protections x shared/private (a request the kernel refuses stays refused; an accepted one made exactly the mapping it reports), anonymous requests, injected mmap failure, build_raw with pointers at page offset {0,1,8,2048,4095} with and without a backing file and for 58 flag words (all subsets of the basic bits plus huge-page sizes, populate, lock, stack, growsdown, nonblock, sync and unknown high bits: the pointer rule does not depend on the flags), guest bases within +-2 of the top of the address space, byte-by-byte coherence of shared file regions in both directions. Xen build: guest bases within two pages of 2^64 and around 2^63 for every valid mapping type (end beyond the address space refused whatever backs the region); all 256 low mmap-flag bytes plus every single high bit (alone and combined with GRANT) x {no file, device file at offset 0, at offset 4096} x sizes (incl. past the end of the file for plain file mappings) x hugetlbfs hint {unset, false, true} x injected {none, ioctl failure, mmap failure} on the emulated gntdev/privcmd. Both builds: every sequence of three file lengths out of {0,4096,8192,12288} with every size requested after each change through one FileOffset lineage (the predicate refers to the file as it is now), and every length query of a valid construction answered with EIO / length 0 / length 2^40 (one deviation per run): whatever the outcome, nothing may stay mapped. Oracle: the statement's acceptance predicate (must fail: MAP_FIXED - which must not even reach the kernel -, overflowing or past-EOF file range, misaligned raw pointer, end beyond the address space, unknown/contradictory Xen type bits, missing file or non-zero offset for foreign/grant; safe requests the OS refuses may fail too); on success the attributes echo the request and exactly one mapping with the requested arguments was made; on failure the interposed mapping log (and the device) show nothing left mapped. One case = one request; all non-trivial; distinct by construction.");
+    ctx.set_rule("Unix build: file lengths {0,1,4095,4096,4097,8192,12288} x offsets {0,1,4096,len-1,len,len+1,2^64-4096,2^64-1} x sizes {0,1,4096,rest-1,rest,rest+1,isize::MAX,usize::MAX} x all 32 subsets of {PRIVATE,SHARED,ANONYMOUS,NORESERVE,FIXED} (x 3 protections in the thorough tier) through MmapRegion::build / from_file / GuestRegionMmap::from_range and the builder with the hugetlbfs hint {unset, false, true}, descriptors opened read-only and write-only x 3 protections x shared/private (a request the kernel refuses stays refused; an accepted one made exactly the mapping it reports), anonymous requests, injected mmap failure, build_raw with pointers at page offset {0,1,8,2048,4095} with and without a backing file and for 58 flag words (all subsets of the basic bits plus huge-page sizes, populate, lock, stack, growsdown, nonblock, sync and unknown high bits: the pointer rule does not depend on the flags), guest bases within +-2 of the top of the address space, byte-by-byte coherence of shared file regions in both directions; a sparse file of 14 GiB with offsets around 2^31, 2^32 and 2^33 through three constructors (the kernel sees the whole offset, the region shows the file's bytes at that offset, and a request the kernel itself maps is not refused). Xen build: guest bases within two pages of 2^64 and around 2^63 for every valid mapping type (end beyond the address space refused whatever backs the region); all 256 low mmap-flag bytes plus every single high bit (alone and combined with GRANT) x {no file, device file at offset 0, at offset 4096} x sizes (incl. past the end of the file for plain file mappings) x hugetlbfs hint {unset, false, true} x injected {none, ioctl failure, mmap failure} on the emulated gntdev/privcmd. Both builds: every sequence of three file lengths out of {0,4096,8192,12288} with every size requested after each change through one FileOffset lineage (the predicate refers to the file as it is now), and every length query of a valid construction answered with EIO / length 0 / length 2^40 (one deviation per run): whatever the outcome, nothing may stay mapped. Oracle: the statement's acceptance predicate (must fail: MAP_FIXED - which must not even reach the kernel -, overflowing or past-EOF file range, misaligned raw pointer, end beyond the address space, unknown/contradictory Xen type bits, missing file or non-zero offset for foreign/grant; safe requests the OS refuses may fail too); on success the attributes echo the request and exactly one mapping with the requested arguments was made; on failure the interposed mapping log (and the device) show nothing left mapped. One case = one request; all non-trivial; distinct by construction.");
     ctx.assume("mmap/munmap/ioctl/lseek are observed and faulted through link-time interposition; gntdev/privcmd are emulated");
     if ctx.replay_of.is_some() {
         println!("replay: deterministic enumeration; re-running it");
